@@ -33,7 +33,8 @@ type c11in struct {
 	T1  int64  `json:"t1_ms,omitempty"`
 	T2  int64  `json:"t2_ms,omitempty"`
 	// myers
-	E []int `json:"e,omitempty"`
+	Shape string `json:"shape,omitempty"` // lopsided: one list is more than three times longer than the other (+5)
+	E     []int  `json:"e,omitempty"`
 	F []int `json:"f,omitempty"`
 	// tree
 	Old string `json:"old,omitempty"`
@@ -100,13 +101,151 @@ func idlessRemove(ops []patchOp) bool {
 	return false
 }
 
-// applyKey classifies a failed application: apply:<cause>:<class>
-func applyKey(stream string, ops []patchOp, why string) string {
-	cause := stream
-	if idlessRemove(ops) {
+func stepsKey(st []selStep) string {
+	var sb strings.Builder
+	for _, s := range st {
+		fmt.Fprintf(&sb, "/%s[%d:%s=%s:%d]", s.Tag, s.Kind, s.Name, s.Val, s.Idx)
+	}
+	return sb.String()
+}
+
+// movedElement: an element addressed by id (or schemeIdUri) is removed and an element with the same
+// address is added under the same parent: the two coexist while the patch is applied.
+func movedElement(ops []patchOp) bool {
+	removed := map[string]bool{}
+	for _, op := range ops {
+		n := len(op.Steps)
+		if op.Kind == "remove" && op.Attr == "" && op.Steps[n-1].Kind == 1 {
+			removed[stepsKey(op.Steps)] = true
+		}
+	}
+	for _, op := range ops {
+		if op.Kind != "add" || op.Attr != "" || op.Payload == nil {
+			continue
+		}
+		parent := op.Steps
+		if op.Pos == "after" {
+			parent = op.Steps[:len(op.Steps)-1]
+		}
+		for _, name := range []string{"id", "schemeIdUri"} {
+			if v := op.Payload.SelectAttrValue(name, ""); v != "" {
+				k := stepsKey(parent) + stepsKey([]selStep{{Tag: op.Payload.Tag, Kind: 1, Name: name, Val: v}})
+				if removed[k] {
+					return true
+				}
+				break
+			}
+		}
+	}
+	return false
+}
+
+// matchKids pairs the children of two elements by (tag, id), first match first.
+func matchKids(a, b *etree.Element, f func(x, y *etree.Element)) {
+	used := map[*etree.Element]bool{}
+	for _, x := range a.ChildElements() {
+		for _, y := range b.ChildElements() {
+			if !used[y] && x.Tag == y.Tag && x.SelectAttrValue("id", "") == y.SelectAttrValue("id", "") {
+				used[y] = true
+				f(x, y)
+				break
+			}
+		}
+	}
+}
+
+// stlAttrChanged: a SegmentTimeline element of old and its counterpart in new differ in attributes.
+func stlAttrChanged(a, b *etree.Element) bool {
+	if a.Tag == "SegmentTimeline" && b.Tag == "SegmentTimeline" {
+		x, y := a.Copy(), b.Copy()
+		x.Child, y.Child = nil, nil
+		return canonical(x) != canonical(y)
+	}
+	r := false
+	matchKids(a, b, func(x, y *etree.Element) { r = r || stlAttrChanged(x, y) })
+	return r
+}
+
+func lopsided(n, m int) bool { return n > 0 && m > 0 && (m >= 3*n+5 || n >= 3*m+5) }
+
+// lopsidedLists: some element of old and its counterpart in new have child lists of which one is
+// more than three times longer than the other (where MyersDiff leaves its index window).
+func lopsidedLists(a, b *etree.Element) bool {
+	if lopsided(len(a.ChildElements()), len(b.ChildElements())) {
+		return true
+	}
+	r := false
+	matchKids(a, b, func(x, y *etree.Element) { r = r || lopsidedLists(x, y) })
+	return r
+}
+
+// ambiguousAddr: two children of one element of new (or old) get the same address from calcAddr's
+// attribute forms (same tag and same id, or no id and same schemeIdUri).
+func ambiguousAddr(e *etree.Element) bool {
+	seen := map[string]bool{}
+	for _, c := range e.ChildElements() {
+		k := ""
+		if v := c.SelectAttrValue("id", ""); v != "" {
+			k = c.Tag + "#id=" + v
+		} else if v := c.SelectAttrValue("schemeIdUri", ""); v != "" {
+			k = c.Tag + "#scheme=" + v
+		}
+		if k != "" {
+			if seen[k] {
+				return true
+			}
+			seen[k] = true
+		}
+		if ambiguousAddr(c) {
+			return true
+		}
+	}
+	return false
+}
+
+// schemeChanged: a kept id-less element changes its schemeIdUri (its address changes under the patch).
+func schemeChanged(a, b *etree.Element) bool {
+	r := false
+	used := map[*etree.Element]bool{}
+	for _, x := range a.ChildElements() {
+		for _, y := range b.ChildElements() {
+			if !used[y] && x.Tag == y.Tag && x.SelectAttrValue("id", "") == y.SelectAttrValue("id", "") {
+				used[y] = true
+				if x.SelectAttrValue("id", "") == "" && x.SelectAttrValue("schemeIdUri", "") != y.SelectAttrValue("schemeIdUri", "") {
+					r = true
+				}
+				r = r || schemeChanged(x, y)
+				break
+			}
+		}
+	}
+	return r
+}
+
+// applyKey classifies a failed application: apply:<cause>:<class>. The cause is read off the patch
+// and the two documents (not off the generator that produced them); "none" = no known cause.
+func applyKey(old, new *etree.Document, ops []patchOp, why string) string {
+	cause := "none"
+	switch {
+	case idlessRemove(ops):
 		cause = "idless-remove"
+	case movedElement(ops):
+		cause = "moved-element"
+	case stlAttrChanged(old.Root(), new.Root()):
+		cause = "segmenttimeline-attr"
+	case ambiguousAddr(old.Root()) || ambiguousAddr(new.Root()):
+		cause = "ambiguous-address"
+	case schemeChanged(old.Root(), new.Root()):
+		cause = "schemeIdUri-changed"
 	}
 	return "apply:" + cause + ":" + strings.SplitN(why, " ", 2)[0]
+}
+
+func panicKey(cls string, old, new *etree.Document) string {
+	if old != nil && new != nil && lopsidedLists(old.Root(), new.Root()) {
+		return "panic:" + cls + ":lopsided-lists"
+	}
+	return "panic:" + cls
 }
 
 // applyAndCompare applies ops to a copy of old and compares with new.
@@ -189,7 +328,7 @@ func representable(d *etree.Document) bool {
 func treeTerm(id int, o treeObs) string {
 	mpdID, orig, nw, ops := `""`, `""`, `""`, "[]"
 	if o.Patch != nil {
-		mpdID, orig, nw = lib.CoqString(o.Patch.MpdID), lib.CoqString(o.Patch.Orig), lib.CoqString(o.Patch.New)
+		mpdID, orig, nw = cs(o.Patch.MpdID), cs(o.Patch.Orig), cs(o.Patch.New)
 		ops = coqOps(o.Patch.Ops)
 	}
 	return fmt.Sprintf("CTree %d\n  %s\n  %s\n  (mkTO %d %s %s %s\n   %s\n   %s %s)", id, coqElem(o.OldDoc.Root()), coqElem(o.NewDoc.Root()),
@@ -373,13 +512,21 @@ func runL1(c *lib.Ctx, ls *lib.Livesim, id string, in c11in) (o l1obs) {
 	same := canonical(d1.Root()) == canonical(d2.Root())
 	dPT := pt2.Sub(pt1)
 	ttl := time.Duration(o.TTL) * time.Second
+	// The handler does not keep the MPD it served at t1: it regenerates it for publishTime + 1 ms.
+	// When that is a different document every consequence is reported under regen-base:<symptom>.
+	regen := ""
+	regenWhy := ""
+	if dOld != nil && canonical(dOld.Root()) != canonical(d1.Root()) {
+		regen = "regen-base:"
+		regenWhy = "; the MPD regenerated for publishTime+1ms differs from the MPD served at t1: " + firstDiff(canonical(dOld.Root()), canonical(d1.Root()))
+	}
 	switch rp.Status {
 	case http.StatusOK:
 		if same {
-			fail("nochange-not-425", "MPD(t1) and MPD(t2) are equal but the patch request answered 200")
+			fail(regen+"nochange-not-425", "MPD(t1) and MPD(t2) are equal but the patch request answered 200"+regenWhy)
 		}
 		if dPT > ttl+marginS*time.Second {
-			fail("late-not-410", fmt.Sprintf("publishTime moved %v > ttl %v + margin but the answer is 200", dPT, ttl))
+			fail(regen+"late-not-410", fmt.Sprintf("publishTime moved %v > ttl %v + margin but the answer is 200", dPT, ttl)+regenWhy)
 		}
 		p, err := parsePatch(rp.Body)
 		if err != nil {
@@ -387,7 +534,7 @@ func runL1(c *lib.Ctx, ls *lib.Livesim, id string, in c11in) (o l1obs) {
 			return
 		}
 		if p.Orig != o.PT1 {
-			fail("originalPublishTime", fmt.Sprintf("originalPublishTime %q, publishTime of the MPD of t1 %q", p.Orig, o.PT1))
+			fail(regen+"originalPublishTime", fmt.Sprintf("originalPublishTime %q, publishTime of the MPD of t1 %q", p.Orig, o.PT1)+regenWhy)
 		}
 		if p.New != o.PT2 {
 			fail("patch-publishTime", fmt.Sprintf("patch publishTime %q, MPD of t2 has %q", p.New, o.PT2))
@@ -395,14 +542,18 @@ func runL1(c *lib.Ctx, ls *lib.Livesim, id string, in c11in) (o l1obs) {
 		if p.MpdID != d1.Root().SelectAttrValue("id", "") {
 			fail("mpdId", fmt.Sprintf("mpdId %q", p.MpdID))
 		}
+		if ex, err := http.ParseTime(rp.Header.Get("Expires")); err != nil {
+			fail("expires-header", fmt.Sprintf("Expires header %q", rp.Header.Get("Expires")))
+		} else if po, err := time.Parse(time.RFC3339, p.Orig); err == nil && ex.Unix() != po.Add(ttl+marginS*time.Second).Unix() {
+			fail("expires-header", fmt.Sprintf("Expires %v, originalPublishTime %v + ttl %v + margin expected", ex.UTC(), po.UTC(), ttl))
+		}
 		ok, why := applyAndCompare(d1, d2, p.Ops)
 		if !ok {
-			key := applyKey("l1", p.Ops, why)
-			if dOld != nil && canonical(dOld.Root()) != canonical(d1.Root()) {
-				key = "apply:l1:base-regenerated-differs"
-				why += "; the MPD regenerated at publishTime+1ms differs from the MPD served at t1: " + firstDiff(canonical(dOld.Root()), canonical(d1.Root()))
+			key := applyKey(d1, d2, p.Ops, why)
+			if regen != "" {
+				key = regen + "apply"
 			}
-			fail(key, "patch applied to MPD(t1) does not give MPD(t2): "+why)
+			fail(key, "patch applied to MPD(t1) does not give MPD(t2): "+why+regenWhy)
 		}
 		if dOld != nil {
 			o.Tree = treeObs{Status: 200, Patch: p, Exp: -1, OldDoc: dOld, NewDoc: d2}
@@ -414,7 +565,12 @@ func runL1(c *lib.Ctx, ls *lib.Livesim, id string, in c11in) (o l1obs) {
 		}
 	case http.StatusTooEarly:
 		if !same {
-			fail("425-but-changed", fmt.Sprintf("answer 425 but MPD(t2) differs from MPD(t1): %s", firstDiff(canonical(d1.Root()), canonical(d2.Root()))))
+			key := "425-but-changed:publishTime-differs"
+			if o.PT1 == o.PT2 {
+				// the two MPDs differ but carry the same publishTime: nothing the patch code can see
+				key = "425-but-changed:same-publishTime"
+			}
+			fail(regen+key, fmt.Sprintf("answer 425 but MPD(t2) differs from MPD(t1): %s", firstDiff(canonical(d1.Root()), canonical(d2.Root())))+regenWhy)
 		}
 		if dOld != nil {
 			o.Tree = treeObs{Status: 425, Exp: -1, OldDoc: dOld, NewDoc: d2}
@@ -422,7 +578,7 @@ func runL1(c *lib.Ctx, ls *lib.Livesim, id string, in c11in) (o l1obs) {
 		}
 	case http.StatusGone:
 		if dPT <= ttl {
-			fail("410-within-ttl", fmt.Sprintf("answer 410 but publishTime moved only %v (ttl %v)", dPT, ttl))
+			fail(regen+"410-within-ttl", fmt.Sprintf("answer 410 but publishTime moved only %v (ttl %v)", dPT, ttl)+regenWhy)
 		}
 		if dOld != nil {
 			o.Tree = treeObs{Status: 410, Exp: -1, OldDoc: dOld, NewDoc: d2}
@@ -436,7 +592,7 @@ func runL1(c *lib.Ctx, ls *lib.Livesim, id string, in c11in) (o l1obs) {
 			d := diffDirect(bOld, b2)
 			switch d.Status {
 			case 599:
-				key = "panic:" + d.Err
+				key = panicKey(d.Err, dOld, d2)
 			case 500:
 				key = "error-500"
 				what = d.Err
@@ -460,10 +616,10 @@ func runC11(c *lib.Ctx) error {
 		return replayC11(c)
 	}
 	rng := rand.New(rand.NewSource(c.Seed))
-	var terms []string
+	var myersTerms []string
+	var treeTerms []func() string // printed per case file (strings are interned per file)
 	nextID := 0
 	distinct := map[string]bool{}
-	addTerm := func(t string) { terms = append(terms, t) }
 
 	// ---------- L1
 	ls, err := lib.NewLivesim(lib.TestVodRoot, nil)
@@ -561,7 +717,8 @@ func runC11(c *lib.Ctx) error {
 			}
 			if o.HasTree && modelLeft > 0 && representable(o.Tree.OldDoc) && representable(o.Tree.NewDoc) {
 				modelLeft--
-				addTerm(treeTerm(id, o.Tree))
+				tid, to := id, o.Tree
+				treeTerms = append(treeTerms, func() string { return treeTerm(tid, to) })
 			}
 		}
 	}
@@ -573,6 +730,10 @@ func runC11(c *lib.Ctx) error {
 		nRand, nGrow = 15000, 200
 	}
 	runM := func(in c11in) {
+		in.Shape = "balanced"
+		if lopsided(len(in.E), len(in.F)) {
+			in.Shape = "lopsided"
+		}
 		id := nextID
 		nextID++
 		sid := fmt.Sprint(id)
@@ -590,7 +751,7 @@ func runC11(c *lib.Ctx) error {
 				distinct[fmt.Sprint("m", in.E, in.F)] = true
 			}
 		}
-		addTerm(myersTerm(id, in, o))
+		myersTerms = append(myersTerms, myersTerm(id, in, o))
 	}
 	for i := 0; i < nRand; i++ {
 		alpha := 2 + rng.Intn(4)
@@ -703,7 +864,8 @@ func runC11(c *lib.Ctx) error {
 				distinct[in.Old+in.New] = true
 			}
 			if o.OldDoc != nil && o.NewDoc != nil {
-				addTerm(treeTerm(id, o))
+				tid, to := id, o
+				treeTerms = append(treeTerms, func() string { return treeTerm(tid, to) })
 			}
 		}
 	}
@@ -714,15 +876,26 @@ func runC11(c *lib.Ctx) error {
 		"ttl..ttl+margin, beyond, 1-3 ms, uniform}; L2: MyersDiff on random/mutated/windowed lists over 2-5 letters and on growing lists; " +
 		"MPDDiff on generated id-carrying MPD-like trees and their mutations (streams unique/idless/reorder/errors). " +
 		"distinct non-trivial = L1 answers 200 with distinct (url,publishTime pair) + Myers inputs with a non-empty script on two non-empty lists + tree pairs with more than two operations"
-	shard := 150
-	for s := 0; s*shard < len(terms); s++ {
-		hi := (s + 1) * shard
-		if hi > len(terms) {
-			hi = len(terms)
-		}
-		c.WriteCases(fmt.Sprintf("cases_C11_%d.v", s),
-			lib.CasesFile("From Verif Require Import GoSem Patch CorrC11.", "c11case", "", terms[s*shard:hi], "model_view"))
+	const imports = "From Verif Require Import GoSem Patch CorrC11."
+	nFile := 0
+	for lo := 0; lo < len(myersTerms); lo += 400 {
+		hi := min(lo+400, len(myersTerms))
+		c.WriteCases(fmt.Sprintf("cases_C11_%d.v", nFile), lib.CasesFile(imports, "c11case", "", myersTerms[lo:hi], "model_view"))
+		nFile++
 	}
+	for lo := 0; lo < len(treeTerms); lo += 50 {
+		hi := min(lo+50, len(treeTerms))
+		curTab = newStrTab()
+		var ts []string
+		for _, f := range treeTerms[lo:hi] {
+			ts = append(ts, f())
+		}
+		defs := curTab.defs.String()
+		curTab = nil
+		c.WriteCases(fmt.Sprintf("cases_C11_%d.v", nFile), lib.CasesFile(imports, "c11case", defs, ts, "model_view"))
+		nFile++
+	}
+	c.Res.ModelCases = len(myersTerms) + len(treeTerms)
 	return nil
 }
 
@@ -730,13 +903,13 @@ func runC11(c *lib.Ctx) error {
 func treeOracle(c *lib.Ctx, sid string, in c11in, o treeObs, pt1, pt2 int64, ttl int) {
 	if in.Stream == "errors" {
 		if o.Status == 599 {
-			c.Fail(sid, "panic:"+o.Err, "MPDDiff panics", in)
+			c.Fail(sid, panicKey(o.Err, o.OldDoc, o.NewDoc), "MPDDiff panics", in)
 		}
 		return
 	}
 	switch o.Status {
 	case 599:
-		c.Fail(sid, "panic:"+o.Err, "MPDDiff panics", in)
+		c.Fail(sid, panicKey(o.Err, o.OldDoc, o.NewDoc), "MPDDiff panics", in)
 	case 425:
 		if pt1 != pt2 {
 			c.Fail(sid, "425-but-changed", "same-publishTime error for different publishTime values", in)
@@ -761,7 +934,7 @@ func treeOracle(c *lib.Ctx, sid string, in c11in, o treeObs, pt1, pt2 int64, ttl
 			c.Fail(sid, "patch-header", fmt.Sprintf("mpdId %q originalPublishTime %q publishTime %q", o.Patch.MpdID, o.Patch.Orig, o.Patch.New), in)
 		}
 		if !o.Applied {
-			c.Fail(sid, applyKey(in.Stream, o.Patch.Ops, o.AppErr), "diff(old,new) applied to old does not give new: "+o.AppErr, in)
+			c.Fail(sid, applyKey(o.OldDoc, o.NewDoc, o.Patch.Ops, o.AppErr), "diff(old,new) applied to old does not give new: "+o.AppErr, in)
 		}
 	}
 }
@@ -810,10 +983,10 @@ func replayC11(c *lib.Ctx) error {
 			}
 		}
 		if o.Status == 599 {
-			c.Fail("replay", "panic:"+o.Err, "MPDDiff panics", in)
+			c.Fail("replay", panicKey(o.Err, o.OldDoc, o.NewDoc), "MPDDiff panics", in)
 		}
 		if o.Status == 200 && !o.Applied {
-			c.Fail("replay", applyKey(in.Stream, o.Patch.Ops, o.AppErr), "diff(old,new) applied to old does not give new: "+o.AppErr, in)
+			c.Fail("replay", applyKey(o.OldDoc, o.NewDoc, o.Patch.Ops, o.AppErr), "diff(old,new) applied to old does not give new: "+o.AppErr, in)
 		}
 		if o.Status == 500 && in.Stream != "errors" {
 			c.Fail("replay", "error-500:"+in.Stream, o.Err, in)
